@@ -549,15 +549,16 @@ DecidePreempt(S, n, j) ==
     LET pp == NodeCfg(S, n).pp
         sv == Nd(S, n).srv
     IN IF pp = 0 THEN {S}
-       ELSE IF sv = <<>> THEN Crash(S, "ValueError:decide_preempt")
        ELSE IF \E a \in DOMAIN sv : sv[a].cust = 0 THEN Crash(S, "AttributeError:decide_preempt")
-       ELSE LET least == SetMax({Cu(S, sv[a].cust).prio : a \in DOMAIN sv})
-            IN IF ~(Cu(S, j).prio < least) THEN {S}
-               ELSE LET cands == {a \in DOMAIN sv : Cu(S, sv[a].cust).prio = least}
-                        ssOf(a) == Cu(S, sv[a].cust).ss
-                        best == SetMax({ssOf(a) : a \in cands})
-                        a0 == SetMin({a \in cands : ssOf(a) = best})   \* Python max(): first maximal
-                    IN Preempt(S, n, sv[a0].cust, j)
+       ELSE LET ins == {a \in DOMAIN sv : ~Cu(S, sv[a].cust).blk}    \* a blocked customer is not in service any more
+            IN IF ins = {} THEN {S}
+               ELSE LET least == SetMax({Cu(S, sv[a].cust).prio : a \in ins})
+                    IN IF ~(Cu(S, j).prio < least) THEN {S}
+                       ELSE LET cands == {a \in ins : Cu(S, sv[a].cust).prio = least}
+                                ssOf(a) == Cu(S, sv[a].cust).ss
+                                best == SetMax({ssOf(a) : a \in cands})
+                                a0 == SetMin({a \in cands : ssOf(a) = best})   \* Python max(): first maximal
+                            IN Preempt(S, n, sv[a0].cust, j)
 
 Preempt(S, n, v, j) ==
     LET pp == NodeCfg(S, n).pp
@@ -574,7 +575,8 @@ Preempt(S, n, v, j) ==
             ELSE LET T1 == WriteInterruptionRecord(S1, n, v, NONE)
                      c1 == Cu(T1, v)
                      T2 == SetCu(T1, v, [c1 EXCEPT !.ss = NONE, !.left = c1.se - T1.now, !.st = NONE,
-                                                  !.stm = pp, !.se = NONE])
+                                                  !.stm = pp, !.se = NONE,
+                                                  !.rdate = INF])      \* its service had started: it no longer reneges
                      T3 == Detach(T2, n, sid, v, 0)   \* exit_date, service_start_date both False: credit 0
                  IN DecideClassChange(T3, n, v)
         takeOver(T) ==
